@@ -479,6 +479,11 @@ def run(ctx):
     r06c(ctx)
     r06d(ctx)
     r06e(ctx)
+    # the lexical forms are produced by the codecs: their exactness is a necessary condition of this property too (rules shared with C18)
+    from .c18 import r18a, r18b, r18d
+    r18a(ctx)
+    r18b(ctx)
+    r18d(ctx)
 
 
 from ..selftest import Seed, unparse_seed  # noqa: E402
